@@ -454,6 +454,14 @@ var c08Special = []func() map[string]*gen.Template{
 			&gen.NDo{X: &gen.EFilter{X: &gen.EMethod{X: nm("_self"), Name: "m", Args: []gen.Expr{str("z")}}, Name: "wrap"}}, tx("end")),
 			"inc": tpl("inc", tx("I("), pr(&gen.ECall{Fn: "fn", Args: []gen.Expr{str("inc")}}), tx(")"))}
 	},
+	func() map[string]*gen.Template { // macros of a library whose name is the empty string: what is written after their calls goes where it went before
+		m := &gen.NMacro{Name: "m", Params: []string{"p"}, Body: []gen.Node{tx("M("), pr(nm("p")), tx(")")}}
+		call := func(obj, a string) gen.Expr { return &gen.EMethod{X: nm(obj), Name: "m", Args: []gen.Expr{str(a)}} }
+		return map[string]*gen.Template{"main": tpl("main", &gen.NImport{Tpl: str(""), Alias: "lib"}, &gen.NFrom{Tpl: str(""), Names: [][2]string{{"m", "mm"}}}, tx("a"), pr(call("lib", "1")), tx("b"),
+			&gen.NSetCap{Name: "c", Body: []gen.Node{tx("c1"), pr(call("lib", "2")), tx("c2")}}, tx("d"), pr(nm("c")), tx("e"), pr(&gen.ECall{Fn: "mm", Args: []gen.Expr{str("3")}}), tx("f"),
+			&gen.NFilter{Filters: []string{"up"}, Body: []gen.Node{tx("g"), pr(call("lib", "4")), tx("h")}}, tx("i"), pr(&gen.ECall{Fn: "fn", Args: []gen.Expr{str("end")}}), tx("j")),
+			"": tpl("", m, tx("never"))}
+	},
 }
 
 func (p *c08) Run(i int) (res fw.Result) {
